@@ -171,19 +171,20 @@ func fixture() *submitFixture {
 // ---- stubs ----------------------------------------------------------------------------------------------------
 
 type submitWorld struct {
-	mu       sync.Mutex
-	c        *submitCase
-	cur      *subSpec
-	attempt  atomic.Int64 // index of the running attempt (-1 before the first); advanced by the account query
-	polls    map[string]int
-	attempts int64
-	executed []int // outcomes of the attempts that were started
-	cdc      codec.Codec
-	ir       codectypes.InterfaceRegistry
-	txCfg    client.TxConfig
-	gasSeen  []uint64
-	msgOK    int64
-	msgBad   int64
+	mu        sync.Mutex
+	c         *submitCase
+	cur       *subSpec
+	attempt   atomic.Int64 // index of the running attempt (-1 before the first); advanced by the account query
+	polls     map[string]int
+	attempts  int64
+	executed  []int // outcomes of the attempts that were started
+	cdc       codec.Codec
+	ir        codectypes.InterfaceRegistry
+	txCfg     client.TxConfig
+	gasSeen   []uint64
+	msgOK     int64
+	validator string
+	msgBad    int64
 }
 
 func (w *submitWorld) outcome() int {
@@ -327,7 +328,7 @@ func (r *rpcStub) BroadcastTxAsync(ctx context.Context, txBytes cmttypes.Tx) (*c
 }
 
 // inspect decodes what is being broadcast (statistics only): a MsgExec carrying one MsgSubmitSignalPrices with
-// exactly the submission's prices.
+// prices for the daemon's validator.
 func (w *submitWorld) inspect(txBytes []byte) {
 	w.mu.Lock()
 	defer w.mu.Unlock()
@@ -356,7 +357,7 @@ func (w *submitWorld) inspect(txBytes []byte) {
 		return
 	}
 	m, ok := inner[0].(*feedstypes.MsgSubmitSignalPrices)
-	if !ok || len(m.SignalPrices) != len(w.cur.MaxSigs) {
+	if !ok || len(m.SignalPrices) == 0 || m.Validator != w.validator {
 		return
 	}
 	good = true
@@ -391,6 +392,7 @@ func runSubmit(c submitCase) *pbt.Verdict {
 	app := fx.ch.App
 	w := &submitWorld{c: &c, polls: map[string]int{}, cdc: app.AppCodec(), ir: app.InterfaceRegistry(), txCfg: app.GetTxConfig()}
 	w.attempt.Store(-1)
+	w.validator = fx.ch.Vals[0].Val.String()
 	clientCtx := client.Context{
 		ChainID:           "bandsim",
 		Codec:             app.AppCodec(),
